@@ -34,10 +34,12 @@ fn dtype_code(t: ValueType) -> u32 {
         DataType::Float => 1,
         DataType::Int8 => 2,
         DataType::UInt8 => 3,
+        _ => 9,
     };
     match t {
         ValueType::Tensor(d) => dc(d),
         ValueType::Sequence(d) => 10 + dc(d),
+        _ => 99,
     }
 }
 
